@@ -1,7 +1,7 @@
 SPEC = {
     "corr": [{"kind": "ipfix-trunc", "quick": 60000, "thorough": 3000000},
              {"kind": "nf9-trunc", "quick": 60000, "thorough": 3000000}],
-    "rule": "sampled well-formed messages (templates announced beforehand by the same exporter; 1..4 sets of 1..4 records "
+    "rule": "half of the IPFIX sessions announce the undecodable template first decodably and then with an enterprise number changed only; one self-contained message per session with a data set of the later-announced id in front of the announcement; sampled well-formed messages (templates announced beforehand by the same exporter; 1..4 sets of 1..4 records "
             "of any positive length, padding of 0 .. min(shortest record - 1, 7) octets) x an undecodable set (unknown template id, reserved set id - for IPFIX also the unused id 1 -, data for a "
             "template naming an element missing from the model, or data for a template without fields, announced as a field-count-0 "
             "record in front of another record of its template set; random body of 0..36 octets) inserted at EVERY set boundary "
